@@ -4,7 +4,7 @@
 #  - baseline suite passes with the patch
 #  - demo passes without the patch and fails with it
 # then copies patch.diff, demo, meta.json to /verif/seeded/<ID>/ and removes the confirm worktree.
-id="$1"; src="${2:-/tmp/seed-$id/OUT}"
+id="$1"; src="${2:-/tmp/seed-$id/OUT}"; dest="${3:-$id}"
 w=/tmp/confirm-$id
 export CARGO_TARGET_DIR=/tmp/confirm-target CARGO_NET_OFFLINE=true
 git -C /repo worktree remove --force $w 2>/dev/null
@@ -32,7 +32,7 @@ cd /
 git -C /repo worktree remove --force $w
 echo "RESULT id=$id demo_without_patch_exit=$a baseline_with_patch_exit=$b allfeatures_build_exit=$bf demo_with_patch_exit=$c"
 if [ $a -eq 0 ] && [ $b -eq 0 ] && [ $bf -eq 0 ] && [ $c -ne 0 ]; then
-  mkdir -p /verif/seeded/$id && cp $src/patch.diff $demo $src/meta.json /verif/seeded/$id/ && echo "CONFIRMED -> /verif/seeded/$id"
+  mkdir -p /verif/seeded/$dest && cp $src/patch.diff $demo $src/meta.json /verif/seeded/$dest/ && echo "CONFIRMED -> /verif/seeded/$dest"
 else
   echo "NOT CONFIRMED"
 fi
